@@ -30,7 +30,9 @@ package server
 //          fut (current leader, epoch+1) | pe (current leader, PARTITION epoch) | <leader>:<epoch>
 
 import (
+	"bytes"
 	"context"
+	"io"
 	"fmt"
 	"os"
 	"os/exec"
@@ -718,6 +720,38 @@ func (c *c07Case) step(line string) {
 			c.orc.closeWindow(p)
 		}
 		modLine, _ = c07Norm(c.ask("c07 lost"))
+	case len(f) == 1 && f[0] == "restore":
+		// the controller's state goes through a Raft snapshot: Snapshot() + Persist() + Restore() of the bytes (what a restart from a
+		// snapshot or an installed snapshot does to the metadata). Restore resets the failover entries like LostLeadership does
+		// (model: `lost`); everything the property speaks about - leader, epochs, in-sync set - must come back as it was.
+		snapBefore := map[string]c07Snap{}
+		for p := range im.names {
+			snapBefore[p] = im.dump(p)
+		}
+		fs, err := im.s.Snapshot()
+		if err != nil {
+			implLine = "err snapshot " + err.Error()
+		} else {
+			sink := &c06Sink{}
+			if err := fs.Persist(sink); err != nil {
+				implLine = "err persist " + err.Error()
+			} else if err := im.s.Restore(io.NopCloser(bytes.NewReader(sink.Bytes()))); err != nil {
+				implLine = "err restore " + err.Error()
+			} else {
+				implLine = "done"
+			}
+		}
+		for p := range c.orc.window {
+			c.orc.closeWindow(p)
+		}
+		for p, b := range snapBefore {
+			a := im.dump(p)
+			c.orc.observe(p, a, "after a snapshot restore")
+			if b.present && (!a.present || a.leader != b.leader || a.le != b.le || a.e != b.e || c07Join(a.isr) != c07Join(b.isr)) && c.orc.tag == "" {
+				c.orc.bad("restore-changes-leadership-state", "partition %s before the snapshot: %s; restored from it: %s", p, b, a)
+			}
+		}
+		modLine, _ = c07Norm(c.ask("c07 lost"))
 	case len(f) >= 2 && f[0] == "race":
 		implLine, modLine = c.race(line)
 	default:
@@ -1056,7 +1090,11 @@ func c07RandomCase(r *vRand, n int) []string {
 		case k < 18:
 			lines = append(lines, "expire "+p)
 		case k < 19:
-			lines = append(lines, "lost")
+			if r.Bool() {
+				lines = append(lines, "lost")
+			} else {
+				lines = append(lines, "restore")
+			}
 		default:
 			if r.Bool() {
 				lines = append(lines, "remove "+p)
